@@ -245,8 +245,98 @@ fn gen<const B: usize, const L: usize>(p: &[&str]) -> String {
     format!("noncanon={} n={} or={} and={}", bad, cnt, limbs_hex(&or), limbs_hex(&and))
 }
 
+/// `canon <bits> <fn> <a> <b> <c>`: more producers of the safe API (results of other properties' operations), judged for
+/// canonicity only: every `Uint` the call yields is printed as its raw limb list.
+fn canon<const B: usize, const L: usize>(p: &[&str]) -> String {
+    type U<const B: usize, const L: usize> = Uint<B, L>;
+    let a: U<B, L> = u(p[3]);
+    let c: U<B, L> = u(p[4]);
+    let m: U<B, L> = u(p[5]);
+    let small = (c.as_limbs().first().copied().unwrap_or(0) % 1024) as usize;
+    let l = |x: &U<B, L>| limbs_list(x.as_limbs());
+    let o = |x: Option<U<B, L>>| x.map_or("none".to_string(), |v| limbs_list(v.as_limbs()));
+    let digits: Vec<u64> = c.as_limbs().iter().chain(m.as_limbs().iter()).copied().collect();
+    let base = a.as_limbs().first().copied().unwrap_or(0);
+    match p[2] {
+        "inv_ring" => o(a.inv_ring()),
+        "inv_mod" => o(a.inv_mod(m)),
+        "pow_mod" => l(&a.pow_mod(c, m)),
+        "reduce_mod" => l(&a.reduce_mod(m)),
+        "mul_redc" => {
+            // a Montgomery setting when m is odd and a, c < m; otherwise the documented preconditions do not hold
+            if L == 0 || m.as_limbs()[0] & 1 == 0 || a >= m || c >= m { return "none".into(); }
+            let inv = U::<64, 1>::from(m.as_limbs()[0]).inv_ring().unwrap().wrapping_neg().as_limbs()[0];
+            format!("{} {}", l(&a.mul_redc(c, m, inv)), l(&a.square_redc(m, inv)))
+        }
+        "root" => if small == 0 { "none".into() } else { l(&a.root(small)) },
+        "lcm" => o(a.lcm(c)),
+        "gcd_extended" => { let (g, x, y, _) = a.gcd_extended(c); format!("{} {} {}", l(&g), l(&x), l(&y)) }
+        "div_ceil" => if c.is_zero() { "none".into() } else { l(&a.div_ceil(c)) },
+        "div_rem" => if c.is_zero() { "none".into() } else { let (q, r) = a.div_rem(c); format!("{} {}", l(&q), l(&r)) },
+        "cnmo" => o(a.checked_next_multiple_of(c)),
+        "o_add" => l(&a.overflowing_add(c).0),
+        "o_sub" => l(&a.overflowing_sub(c).0),
+        "o_mul" => l(&a.overflowing_mul(c).0),
+        "o_neg" => l(&a.overflowing_neg().0),
+        "o_pow" => l(&a.overflowing_pow(c).0),
+        "o_shl" => l(&a.overflowing_shl(small).0),
+        "o_shr" => l(&a.overflowing_shr(small).0),
+        "c_add" => o(a.checked_add(c)),
+        "c_sub" => o(a.checked_sub(c)),
+        "c_mul" => o(a.checked_mul(c)),
+        "c_neg" => o(a.checked_neg()),
+        "c_pow" => o(a.checked_pow(c)),
+        "c_shl" => o(a.checked_shl(small)),
+        "c_shr" => o(a.checked_shr(small)),
+        "c_div" => o(a.checked_div(c)),
+        "c_rem" => o(a.checked_rem(c)),
+        "s_shl" => l(&a.saturating_shl(small)),
+        "s_pow" => l(&a.saturating_pow(c)),
+        "pow" => l(&a.pow(c)),
+        "shl_op" => l(&(a << small)),
+        "shr_op" => l(&(a >> small)),
+        "shl_uint" => l(&(a << c)),
+        "shr_uint" => l(&(a >> c)),
+        "from_base_le" => U::<B, L>::from_base_le(base, digits.iter().copied()).map_or("none".into(), |v| l(&v)),
+        "from_base_be" => U::<B, L>::from_base_be(base, digits.iter().copied()).map_or("none".into(), |v| l(&v)),
+        "from_digits_rt" => {
+            // digits of c in base `base` fed back in (a value that fits, unlike random digit strings)
+            if base < 2 { return "none".into(); }
+            let ds: Vec<u64> = c.to_base_le(base).collect();
+            let be: Vec<u64> = c.to_base_be(base).collect();
+            format!("{} {}", U::<B, L>::from_base_le(base, ds).map_or("none".into(), |v| l(&v)),
+                    U::<B, L>::from_base_be(base, be).map_or("none".into(), |v| l(&v)))
+        }
+        "from_str" => {
+            let radix = 2 + (base % 35);
+            let text: String = c.to_base_be(radix).map(|d| std::char::from_digit(d as u32, radix as u32).unwrap()).collect();
+            U::<B, L>::from_str_radix(&text, radix).map_or("none".into(), |v| l(&v))
+        }
+        "sat_f64" => l(&U::<B, L>::saturating_from(f64::from_bits(base))),
+        "wrap_f64" => l(&U::<B, L>::wrapping_from(f64::from_bits(base))),
+        "sat_f32" => l(&U::<B, L>::saturating_from(f32::from_bits(base as u32))),
+        "bits_ops" => {
+            let x = ruint::Bits::<B, L>::from(a);
+            let y = ruint::Bits::<B, L>::from(c);
+            format!("{} {} {} {}", l(&(!x).into_inner()), l(&(x ^ y).into_inner()), l(&x.rotate_left(small).into_inner()),
+                    l(&(x << small).into_inner()))
+        }
+        "sum_product" => {
+            let v = [a, c, m];
+            format!("{} {}", l(&v.iter().copied().sum::<U<B, L>>()), l(&v.iter().copied().product::<U<B, L>>()))
+        }
+        "nt_ops" => {
+            format!("{} {} {}", l(&<U<B, L> as num_traits::WrappingNeg>::wrapping_neg(&a)),
+                    l(&<U<B, L> as num_traits::ops::wrapping::WrappingShl>::wrapping_shl(&a, small as u32)),
+                    l(&<U<B, L> as num_traits::PrimInt>::pow(a, small as u32)))
+        }
+        _ => "bad-op".into(),
+    }
+}
+
 fn run<const B: usize, const L: usize>(p: &[&str]) -> String {
     match p[0] {
+        "canon" => canon::<B, L>(p),
         "hist" => hist::<B, L>(p),
         "gen" => gen::<B, L>(p),
         "cmp" => {
